@@ -1,6 +1,7 @@
 package props
 
 import (
+	"sort"
 	"strings"
 	"fmt"
 
@@ -248,6 +249,71 @@ func (p *c10) roundTrip(x *res, item val.Item, ctx *runner.Ctx) {
 			}
 		}
 		p.readPurity(x, adapter, cl, spec.Name, key, it, ctx)
+		p.copiesAreCopies(x, adapter, cl, spec.Name, key, it, ctx)
+	}
+}
+
+// copiesAreCopies: an update derives a NEW attribute from a stored list, map or set (list_append, plain copy) and
+// then changes that new attribute; the attribute it was derived from still reads back exactly as it was written.
+func (p *c10) copiesAreCopies(x *res, adapter string, cl adapt.Client, table string, key, it val.Item, ctx *runner.Ctx) {
+	names := []string{}
+	for k := range it {
+		names = append(names, k)
+	}
+	sort.Strings(names)
+	done := 0
+	for _, a := range names {
+		v := it[a]
+		if a == "h" || a == "r" || done >= 2 {
+			continue
+		}
+		var steps []adapt.Op
+		al := map[string]string{"#a": a}
+		switch v.K {
+		case val.KL:
+			steps = []adapt.Op{
+				{Kind: adapt.OpUpdate, Table: table, Key: key, Update: "SET zzcopy = list_append(#a, :one)", Names: al, Values: val.Item{":one": val.List(val.Str("appended"))}},
+				{Kind: adapt.OpUpdate, Table: table, Key: key, Update: "SET zzcopy2 = list_append(:one, #a)", Names: al, Values: val.Item{":one": val.List(val.Str("prepended"))}},
+				{Kind: adapt.OpUpdate, Table: table, Key: key, Update: "SET zzcopy[0] = :x", Values: val.Item{":x": val.Str("overwritten")}},
+			}
+		case val.KM:
+			steps = []adapt.Op{
+				{Kind: adapt.OpUpdate, Table: table, Key: key, Update: "SET zzcopy = #a", Names: al},
+				{Kind: adapt.OpUpdate, Table: table, Key: key, Update: "SET zzcopy.zznew = :x", Values: val.Item{":x": val.Str("added")}},
+			}
+		case val.KSS:
+			steps = []adapt.Op{
+				{Kind: adapt.OpUpdate, Table: table, Key: key, Update: "SET zzcopy = #a", Names: al},
+				{Kind: adapt.OpUpdate, Table: table, Key: key, Update: "ADD zzcopy :m", Values: val.Item{":m": val.SS("zz-added")}},
+			}
+		default:
+			continue
+		}
+		done++
+		steps = append(steps, adapt.Op{Kind: adapt.OpUpdate, Table: table, Key: key, Update: "REMOVE zzcopy, zzcopy2"})
+		for _, st := range steps {
+			ctx.Trace("%s derive %s", adapter, st.String())
+			o := cl.Do(st)
+			x.r.Evals++
+			x.r.Counters["derived_attribute_updates"]++
+			if o.Class == adapt.ClsRuntime {
+				x.viol("runtime-panic", o.Site, fmt.Sprintf("[%s] %s: runtime panic at %s: %s", adapter, st.Update, o.Site, o.Msg), map[string]interface{}{"adapter": adapter, "item": it, "update": st})
+				return
+			}
+			got := cl.Do(adapt.Op{Kind: adapt.OpGet, Table: table, Key: key})
+			if got.Class != adapt.ClsOK || !val.Equal(got.Item[a], v) {
+				if len(modelQuirkNames(got.Item, it)) > 0 {
+					return // listed empty-list/map finding of the SDK v2 adapter
+				}
+				qa, qb := val.Item{"a": got.Item[a]}, val.Item{"a": v}
+				if len(modelQuirkNames(qa, qb)) > 0 {
+					return
+				}
+				x.viol("source-of-a-copy-changed", adapter+"/"+string(v.K), fmt.Sprintf("[%s] after UpdateItem %q (derives / changes another attribute) the attribute %s reads %s; it was written as %s", adapter, st.Update, a, got.Item[a].Canon(), v.Canon()),
+					map[string]interface{}{"adapter": adapter, "item": it, "update": st, "attribute": a})
+				return
+			}
+		}
 	}
 }
 
